@@ -236,7 +236,8 @@ def _lim():
 
 @st.composite
 def basic_sets(draw, depth=1):
-    kinds = ['R', 'C', 'Z', 'Empty', 'Univ', 'Strings', 'Finite', 'Intv']
+    kinds = ['R', 'C', 'Z', 'Empty', 'Univ', 'Strings', 'Strings', 'Finite',
+             'Finite', 'Finite', 'Intv']
     if depth > 0:
         kinds += ['Cart', 'Union', 'Inter', 'Cart', 'Union', 'Inter']
     k = draw(st.sampled_from(kinds))
@@ -556,6 +557,20 @@ def mutations(d):
             nd = _copy(d)
             nd['sets'] = nd['sets'] + [{'k': 'Z'}]
             add('length', nd, 'unequal')
+            if d['sets']:
+                nd = _copy(d)
+                nd['sets'][-1] = {'k': 'Strings', 'n': 9}
+                add('component', nd, 'unequal')
+                if len(d['sets']) >= 2 and d['sets'][0] != d['sets'][-1]:
+                    # (a Cartesian product is ordered)
+                    nd = _copy(d)
+                    nd['sets'] = nd['sets'][::-1]
+                    add('swap', nd, 'unequal')
+        if k != 'Cart' and d['sets']:
+            nd = _copy(d)
+            nd['sets'][-1] = {'k': 'Strings', 'n': 9}
+            if {'k': 'Strings', 'n': 9} not in d['sets']:
+                add('component', nd, 'unequal')
     elif k == 'Finite':
         nd = _copy(d)
         nd['elems'] = nd['elems'][::-1]
